@@ -275,9 +275,14 @@ PROPS = {
                        "/repo at run time) is translated to a z3 regular expression; z3 decides (R1) that no rule of a "
                        "reachable state accepts the empty word (progress => termination), (R2) that in every reachable "
                        "state every non-empty text has a matching rule at its first position (no Error token for any "
-                       "text), and a structural pass (R3) establishes that every action is a plain token type and every "
-                       "transition a push/pop of an existing state, under which Pygments' loop yields consecutive "
-                       "m.group() slices. Unbounded in text length. The translator is validated against the real `re` "
+                       "text - stronger than the property, which only speaks about accepted sources: when it fails, a "
+                       "witness is reported only if it can be completed into a source the real compiler accepts and the "
+                       "real lexer emits an Error token for it, with a second query restricted to the grammar's string "
+                       "bodies), and (R3) that every action emits the whole match: plain token types do; for `bygroups` "
+                       "z3 decides that no part of the rule outside groups 1..n can match a non-empty text; every "
+                       "transition is a push/pop of an existing state. Under these Pygments' loop yields consecutive "
+                       "slices. Unbounded in text length. Replays that run the real lexer use child processes with a "
+                       "time limit. The translator is validated against the real `re` "
                        "on sample strings each run.",
         "technique": "z3 regex-theory queries (language emptiness / inclusion) over the live lexer table",
         "level_text": "Proof-like for all texts of any length, within Engine R's regex subset; stated for "
